@@ -48,30 +48,25 @@ static void write_srec_line(
     }
   }
 
-  if (type <= 1)
-  {
-    address &= 0xffff;
-    fprintf(out, "S%c%02X%04X", '0' + type, len + 3, address);
+  // S0, S1, S9 have a 16 bit address, S2 and S8 24 bit, S3 and S7 32 bit.
+  int address_len = 2;
 
-    checksum = (len + 3) + (address >> 8) + (address & 0xff);
-  }
-    else
-  if (type == 2)
-  {
-    address &= 0xffffff;
-    fprintf(out, "S%c%02X%06X", '0' + type, len + 4, address);
+  if (type == 2 || type == 8) { address_len = 3; }
+  if (type == 3 || type == 7) { address_len = 4; }
 
-    checksum = (len + 4) + (address >> 16) + ((address >> 24) & 0xff) +
-      (address & 0xff);
-  }
-    else
-  if (type == 3)
-  {
-    fprintf(out, "S%c%02X%08X", '0' + type, len + 5, address);
+  if (address_len < 4) { address &= (1 << (address_len * 8)) - 1; }
 
-    checksum = (len + 5) + (address >> 24) + ((address >> 16) & 0xff) +
-      ((address >> 8) & 0xff) + (address & 0xff);
-  }
+  fprintf(out, "S%c%02X%0*X",
+    '0' + type,
+    len + address_len + 1,
+    address_len * 2,
+    address);
+
+  checksum = (len + address_len + 1) +
+    (address >> 24) +
+    ((address >> 16) & 0xff) +
+    ((address >> 8) & 0xff) +
+    (address & 0xff);
 
   for (n = 0; n < len; n++)
   {
@@ -178,12 +173,17 @@ int write_srec(Memory *memory, FILE *out, int srec_size)
 
   if (memory->entry_point != 0xffffffff)
   {
-    int checksum = 3 + ((memory->entry_point >> 8) & 0xff) +
-                        (memory->entry_point & 0xff);
+    // The termination record has the address width of the data records:
+    // S9 goes with S1, S8 with S2 and S7 with S3.
+    int data_type = type;
 
-    checksum = (checksum & 0xff) ^ 0xff;
+    if (data_type == -1)
+    {
+      data_type = memory->entry_point <= 0xffff ? 1 :
+                 (memory->entry_point <= 0xffffff ? 2 : 3);
+    }
 
-    fprintf(out, "S903%04x%02x\n", memory->entry_point, checksum);
+    write_srec_line(out, 10 - data_type, memory->entry_point, data, 0);
   }
 
   return 0;
